@@ -154,6 +154,22 @@ class FactorGraph(UndirectedGraph):
             if factor in self.nodes:
                 self.remove_node(factor)
 
+    @property
+    def states(self):
+        """
+        Returns a dictionary mapping each variable node to its list of possible states.
+
+        Returns
+        -------
+        state_dict: dict
+            Dictionary of nodes to possible states
+        """
+        state_names_list = [phi.state_names for phi in self.factors]
+        state_dict = {
+            node: states for d in state_names_list for node, states in d.items()
+        }
+        return state_dict
+
     def get_cardinality(self, node=None):
         """
         Returns the cardinality of the node
